@@ -21,6 +21,31 @@ def syntax_gen(ctx, seed, ntrees, maxstmts, cfg, tag, module="Syntax", trees_cmd
     return gp, len(out)
 
 
+def family_gen(ctx, cfg_syntax, tag):
+    """ShapeFam.tla: exhaustive families of abstract programs printed by TLC, then printed as text (with the static
+    verdict and the expected name diagnostics) by the Syntax machine"""
+    g = ctx.tlc("ShapeFam", "ShapeFam_%s.cfg" % ctx.tier, workers=1, label="ShapeFam.tla: exhaustive source-shape and name families", timeout=1800)
+    if g["tlc_error"] or not g["finished"] or g["inv_violated"]:
+        raise Infra("ShapeFam failed: %s" % g["tlc_error"])
+    trees = [json.loads(x[4:]) for x in g["printed"] if x.startswith("GEN ")]
+    if not trees:
+        raise Infra("ShapeFam printed nothing")
+    tp = os.path.join(ctx.work, "trees_%s.ndjson" % tag)
+    with open(tp, "w") as f:
+        for i, t in enumerate(trees):
+            t.update(id=i, bal={}, meta={}, rawvars={}, varvals={})
+            f.write(json.dumps(t) + "\n")
+    g = ctx.tlc("Syntax", cfg_syntax, env={"TREES": tp}, workers=8, label="Syntax prints the family (%s)" % tag, timeout=3600)
+    if g["tlc_error"] or not g["finished"] or g["inv_violated"]:
+        raise Infra("Syntax machine failed (%s): %s %s\n%s" % (tag, g["tlc_error"], g["inv_violated"], g["out"][-1500:]))
+    out = [x[4:] for x in g["printed"] if x.startswith("GEN ")]
+    ctx.cov["states"] += g["states"]
+    ctx.cov["transitions"] += g["generated"]
+    gp = os.path.join(ctx.work, "gen_%s.ndjson" % tag)
+    open(gp, "w").write("\n".join(out) + "\n")
+    return gp, tp, len(out)
+
+
 def judge_front(ctx, obs_path, cfg, prop, describe, replay_kind="front"):
     r = ctx.tlc_trace("FrontTrace", cfg, obs_path, label="FrontTrace judges the real front end (%s)" % cfg)
     viols = [v for v in r["viols"] if v["prop"] == prop]
@@ -139,6 +164,16 @@ def c16(ctx):
         ctx.cov["traces_validated_against_impl"] += s1["cases"]
         ctx.cov["statically_valid_cases"] = ctx.cov.get("statically_valid_cases", 0) + s1["valid"]
         ctx.cov["samples"] += (s1["samples"] or [])[:2]
+    # exhaustive families (every source shape of depth <= 2 (+ one cap) x {send, send-all}; every small use of two names)
+    gp, tp, cnt = family_gen(ctx, "Syntax_static1.cfg", "family")
+    op = os.path.join(ctx.work, "obs_family.ndjson")
+    s1 = ctx.vh_json(["chk-check", gp, op])
+    judge_front(ctx, op, "FrontTrace_C16.cfg", "C16", describe_chk, replay_kind="diag")
+    ctx.cov["evaluations"] += s1["cases"]
+    ctx.cov["distinct_nontrivial"] += s1["with_name_diagnostics"]
+    ctx.cov["traces_validated_against_impl"] += s1["cases"]
+    ctx.cov["family_cases"] = s1["cases"]
+    ctx.cov["statically_valid_cases"] = ctx.cov.get("statically_valid_cases", 0) + s1["valid"]
 
 
 def c17(ctx):
@@ -155,6 +190,15 @@ def c17(ctx):
     ctx.cov["traces_validated_against_impl"] += s1["cases"]
     ctx.cov["clean_but_failing_at_run_time"] = s1["clean_but_failing_at_run_time"]
     ctx.cov["samples"] += (s1["samples"] or [])[:2]
+    # the exhaustive source-shape / name families: whatever the checker lets through is executed
+    gp, tp2, cnt = family_gen(ctx, "Syntax_static1.cfg", "family")
+    op = os.path.join(ctx.work, "obs_c17_family.ndjson")
+    s2 = ctx.vh_json(["c17-check", gp, tp2, op])
+    judge_front(ctx, op, "FrontTrace_C17.cfg", "C17", lambda o, v: "check: %s | run: %s | vars: %s | text: %r" % (json.dumps(o["obs"].get("diags"))[:300], o["run"], o["rawvars"], o["text"][:300]), replay_kind="c17")
+    ctx.cov["evaluations"] += s2["cases"]
+    ctx.cov["distinct_nontrivial"] += s2["clean_check"]
+    ctx.cov["traces_validated_against_impl"] += s2["cases"]
+    ctx.cov["family_cases"] = s2["cases"]
 
 
 def known_panic(prop, panic_msg):
